@@ -395,6 +395,9 @@ def unjson(v):
     if isinstance(v, dict):
         if set(v) == {'$b'}:
             return bytes.fromhex(v['$b'])
+        if set(v) == {'$d'}:
+            import datetime
+            return datetime.datetime.utcfromtimestamp(v['$d'])       # a plist <date>: naive, UTC
         return {k: unjson(x) for k, x in v.items()}
     if isinstance(v, list):
         return [unjson(x) for x in v]
